@@ -357,9 +357,16 @@ class Interp:
         c = self.run.choose(2, "atom " + v.show())
         res = bool(c)
         self.run.atoms[k] = res
-        self.run.atom_log.append((v, res))
+        self.run.atom_log.append((v, res, len(self.run.events)))
         if v.op in CMP:
-            self.refine(v.op if res else NEG[v.op], v.args[0], v.args[1])
+            eff = v.op if res else NEG[v.op]
+            self.refine(eff, v.args[0], v.args[1])
+            a, b = v.args
+            rel = self.run.__dict__.setdefault("rel_lt", set())
+            if eff == "Lt":
+                rel.add((id(a), id(b)))
+            elif eff == "Gt":
+                rel.add((id(b), id(a)))
         return res
 
     def decide_cmp(self, op, a, b):
@@ -371,6 +378,36 @@ class Interp:
             if not is_sym(a) and not is_sym(b):
                 return CMP[op](a, b)
             return None
+        for x, y, flip in ((a, b, False), (b, a, True)):
+            # facts carried by a draw: result < argument (entropy summaries)
+            if is_sym(x) and "rel" in x.attrs:
+                ra = x.attrs.get("rel_args") or []
+                for kind, i in x.attrs["rel"]:
+                    if kind == "lt_arg" and i < len(ra) and ra[i] is y:
+                        o = SWAP[op] if flip else op
+                        if o in ("Lt", "Le", "Ne"):
+                            return True
+                        if o in ("Gt", "Ge", "Eq"):
+                            return False
+        rel = self.run.__dict__.get("rel_lt")
+        if rel:
+            # relational facts assumed on this path: a < b
+            if (id(a), id(b)) in rel:
+                if op in ("Lt", "Le", "Ne"):
+                    return True
+                if op in ("Gt", "Ge", "Eq"):
+                    return False
+            if (id(b), id(a)) in rel:
+                if op in ("Gt", "Ge", "Ne"):
+                    return True
+                if op in ("Lt", "Le", "Eq"):
+                    return False
+            # a < x  and  b = x.saturating_sub(1) with x >= 1   =>   a <= b
+            if is_sym(b) and b.op == "sat_sub" and b.args[1] == 1 and is_sym(b.args[0]) and b.args[0].lo >= 1 and (id(a), id(b.args[0])) in rel:
+                if op == "Gt":
+                    return False
+                if op == "Le":
+                    return True
         alo, ahi = bounds(a)
         blo, bhi = bounds(b)
         if alo is None or blo is None or ahi is None or bhi is None:
@@ -425,6 +462,11 @@ class Interp:
             elif op == "Eq":
                 a.lo = max(a.lo, b)
                 a.hi = min(a.hi, b)
+            elif op == "Ne":
+                if a.lo == b:
+                    a.lo = b + 1
+                if a.hi == b:
+                    a.hi = b - 1
         elif is_sym(b) and b.ty in INT_TYPES and not is_sym(a) and isinstance(a, int):
             self.refine(SWAP[op], b, a)
         elif is_sym(a) and is_sym(b) and a.ty in INT_TYPES and b.ty in INT_TYPES:
